@@ -30,12 +30,27 @@ fn scenario(id: &str) -> Option<&'static dyn Scenario> {
         "C12" => &scen::locals::C12,
         "C18" => &scen::timers::C18,
         "C16" => &scen::feature::C16,
+        "C20" => &scen::macros::C20,
         "C09" => &scen::descs::C09,
         _ => return None,
     })
 }
 
-pub const ALL: &[&str] = &["C01", "C02", "C03", "C04", "C05", "C06", "C07", "C08", "C09", "C10", "C11", "C12", "C13", "C14", "C15", "C16", "C17", "C18"];
+pub const ALL: &[&str] = &["C01", "C02", "C03", "C04", "C05", "C06", "C07", "C08", "C09", "C10", "C11", "C12", "C13", "C14", "C15", "C16", "C17", "C18", "C20"];
+
+/// The default registry is process-global: create it on the main thread (fixed hash seed) and grow
+/// its map once, so that its iteration order never depends on what a process ran before.
+fn warm_default_registry() {
+    let mut cs = vec![];
+    for i in 0..40 {
+        let c = prometheus::IntCounter::new(format!("dsim_warmup_{}", i), "warmup").unwrap();
+        prometheus::register(Box::new(c.clone())).unwrap();
+        cs.push(c);
+    }
+    for c in cs {
+        prometheus::unregister(Box::new(c)).unwrap();
+    }
+}
 
 fn tier_of(s: &str) -> Tier {
     match s {
@@ -50,6 +65,7 @@ fn arg_val(args: &[String], name: &str) -> Option<String> {
 
 fn main() {
     seams::install_panic_hook();
+    warm_default_registry();
     let args: Vec<String> = std::env::args().collect();
     let cmd = args.get(1).map(|s| s.as_str()).unwrap_or("");
     let code = match cmd {
